@@ -1397,6 +1397,9 @@ def call(f, *args, **kw):
         return _native(f, args, kw)
     if isinstance(f, functools.partial):
         return call(f.func, *f.args, *args, **{**f.keywords, **kw})
+    origin = getattr(f, '__origin__', None)
+    if origin is not None and isinstance(origin, type):
+        return call(origin, *args, **kw)          # typing aliases such as typing.ChainMap
     return _native(f, args, kw)
 
 
